@@ -59,7 +59,7 @@ import sys
 import tempfile
 import threading
 import time
-from typing import Any, Dict, List, Optional, Tuple
+from typing import Any, Dict, List, Optional, Sequence, Tuple
 
 from .. import core, explorer, sched
 
@@ -184,6 +184,13 @@ INVALID_JSON: List[Tuple[str, str]] = [
     ("not-json", "mcpServers: alpha"),
     ("single-quotes", "{'mcpServers': {}}"),
     ("garbage-after-value", '{"mcpServers": {}} x'),
+    # interrupted writes: the text stops right after a line break, or is nothing but one
+    ("newline-only", "\n"),
+    ("cut-after-first-line", "{\n"),
+    ("cut-after-a-complete-line", '{"mcpServers": {"alpha": {"command": "x"}},\n'),
+    ("pretty-printed-cut-at-line-break", '{\n "mcpServers": {\n  "alpha": {\n   "command": "x",\n'),
+    ("crlf-cut", '{\r\n "mcpServers": {\r\n'),
+    ("blank-lines-only", "\n\n  \n"),
 ]
 UNKNOWN_FILES = ["no-mcpServers-key", "empty-mcpServers", "one-server", "three-servers"]
 UNKNOWN_NAMES = [("other", "nope"), ("empty", ""), ("case-variant", "ALPHA")]
@@ -321,17 +328,24 @@ class _Logging:
 
 
 @contextlib.contextmanager
-def _parent_env():
+def _parent_env(lacks: Sequence[str] = (), mode: Optional[str] = None):
+    """lacks: default-inherited names the host does NOT have for this case (cron, CI runner, container).
+    mode None: set the host environment up and restore the process environment afterwards; "setup-keep": set it up and
+    leave whatever the call did to it; "inherit-keep": touch nothing (the previous call's environment is the host's)."""
     saved = dict(os.environ)
     try:
-        for k in list(os.environ):
-            if k in PARENT_ENV or k in ("LOG_LEVEL", "LOGGING_LEVEL"):
-                del os.environ[k]
-        os.environ.update(PARENT_ENV)
+        if mode != "inherit-keep":
+            for k in list(os.environ):
+                if k in PARENT_ENV or k in ("LOG_LEVEL", "LOGGING_LEVEL"):
+                    del os.environ[k]
+            os.environ.update(PARENT_ENV)
+            for k in lacks:
+                os.environ.pop(k, None)
         yield
     finally:
-        os.environ.clear()
-        os.environ.update(saved)
+        if mode is None:
+            os.environ.clear()
+            os.environ.update(saved)
 
 
 def _proc_state(pid: int, marker: bytes) -> str:
@@ -797,6 +811,9 @@ def _probe_loader(path: str, name: str) -> str:
 # one case
 # ---------------------------------------------------------------------------
 def case_text(cfg: Dict[str, Any]) -> str:
+    if cfg.get("after_run_command"):
+        rest = {k: v for k, v in cfg.items() if k != "after_run_command"}
+        return f"same process: run_command first, then (process environment left as it is): {case_text(rest)}"
     if "launches" in cfg:
         rest = {k: v for k, v in cfg.items() if k not in ("launches", "launcher")}
         return f"load_config once, then {cfg['launches']} launches through {cfg['launcher']}: {case_text(rest)}"
@@ -813,6 +830,8 @@ def case_text(cfg: Dict[str, Any]) -> str:
                 f"{SEQ_STATES[s2]!r}, then {e2} || first: {case_text(seq_phase(s1, e1))} || second: "
                 f"{case_text(seq_phase(s2, e2))}")
     parts = [f"entry={cfg['entry']}"]
+    if cfg.get("host_lacks"):
+        parts.append(f"host environment without {list(cfg['host_lacks'])!r}")
     if cfg.get("names_as") and cfg["names_as"] != "list":
         parts.append(f"server names given as a {cfg['names_as']}")
     if cfg.get("logging") and cfg["logging"] != "default":
@@ -866,6 +885,8 @@ def run_one(ctl: explorer.Ctl, cfg: Dict[str, Any]) -> Dict[str, Any]:
             return _run_after_cli(cfg, tmp, pids)
         if "launches" in cfg:
             return _run_relaunch(cfg, tmp, pids)
+        if cfg.get("after_run_command"):
+            return _run_after_run_command(cfg, tmp, pids)
         if "cli" in cfg:
             return _run_cli_case(cfg, tmp, pids)
         return _run_case(cfg, tmp, pids)
@@ -1029,6 +1050,38 @@ def _run_relaunch(cfg: Dict[str, Any], tmp: str, pids: List[int]) -> Dict[str, A
             "violations": viol, "counters": {"witness_launches": len(launches), "handshakes_seen_by_witness": n_hs}}
 
 
+def _run_after_run_command(cfg: Dict[str, Any], tmp: str, pids: List[int]) -> Dict[str, Any]:
+    """run_command is used first in this process, then an ordinary case runs under the same host environment; whatever
+    the first call did to the process must not show in the second launch."""
+    case = {k: v for k, v in cfg.items() if k != "after_run_command"}
+    first_cfg = {"entry": "run_command", "servers": [R_SHAPES[1]], "request": [0], "cmdkind": "plain",
+                 "host_lacks": cfg.get("host_lacks") or []}
+    roots = [os.path.join(tmp, "call1"), os.path.join(tmp, "call2")]
+    for r in roots:
+        os.mkdir(r)
+    saved = dict(os.environ)
+    try:
+        # the process environment is NOT restored between the two calls: only the names the harness controls are re-set
+        first = _run_case(first_cfg, tmp, pids, root=roots[0], environ_mode="setup-keep")
+        second = _run_case(case, tmp, pids, root=roots[1], environ_mode="inherit-keep")
+    finally:
+        os.environ.clear()
+        os.environ.update(saved)
+    viol = list(first["violations"])
+    for v in second["violations"]:
+        sig = dict(v["sig"])
+        sig["after"] = "run_command"
+        viol.append({"sig": sig, "msg": f"after run_command was used in the same process: {v['msg']}"})
+    counters: Dict[str, int] = {}
+    for ph in (first, second):
+        for kk, vv in (ph.get("counters") or {}).items():
+            counters[kk] = counters.get(kk, 0) + vv
+        ph.pop("violations", None)
+        ph.pop("counters", None)
+    return {"entry": f"run_command then {case['entry']}", "calls": [first, second],
+            "outcome": f"[{first['outcome']}] then [{second['outcome']}]", "violations": viol, "counters": counters}
+
+
 def _run_after_cli(cfg: Dict[str, Any], tmp: str, pids: List[int]) -> Dict[str, Any]:
     """The command line is run first in this process (it configures logging and nobody undoes that), then an ordinary
     case.  The ordinary case is judged exactly as alone."""
@@ -1124,7 +1177,8 @@ def _run_sequence(cfg: Dict[str, Any], tmp: str, pids: List[int]) -> Dict[str, A
 
 
 def _run_case(cfg: Dict[str, Any], tmp: str, pids: List[int], root: Optional[str] = None,
-              path: Optional[str] = None, pad_to: Optional[int] = None, restore=None) -> Dict[str, Any]:
+              path: Optional[str] = None, pad_to: Optional[int] = None, restore=None,
+              environ_mode: Optional[str] = None) -> Dict[str, Any]:
     entry = cfg["entry"]
     mal = cfg.get("malformed")
     path, specs, decoy_bin = _build(cfg, root or tmp, path, pad_to)
@@ -1138,7 +1192,7 @@ def _run_case(cfg: Dict[str, Any], tmp: str, pids: List[int], root: Optional[str
     timed_out = False
     marker = os.fsencode(tmp + os.sep)
 
-    with _parent_env():
+    with _parent_env(cfg.get("host_lacks") or (), environ_mode):
         if host_path == "decoy-prepended":
             os.environ["PATH"] = str(decoy_bin) + os.pathsep + PARENT_ENV["PATH"]
         elif host_path == "decoy-appended":
@@ -1330,6 +1384,12 @@ def _run_case(cfg: Dict[str, Any], tmp: str, pids: List[int], root: Optional[str
                         f"server {reqnames!r}: child environment restricted to the {kind} names is {have!r}, "
                         f"expected {want!r}")
                 conf_keys = set(conf_env) if _with_values(conf_env) else set()
+                # a default-inherited name the HOST does not have cannot be inherited: nobody may invent a value for it
+                invented = sorted(k for k in (cfg.get("host_lacks") or ()) if k not in conf_keys and k in got_env)
+                if invented:
+                    add({"class": "env-variable-invented", "entry": entry, "env": sp["env_name"], "names": "+".join(invented)},
+                        f"server {reqnames!r}: the host has no {invented!r} and the configuration sets none, but the child has "
+                        f"{ {k: got_env[k] for k in invented}!r}")
                 leaked = sorted(k for k in CANARIES if k not in conf_keys and k in got_env)
                 summary["leaked"].append(leaked)
                 if leaked:
@@ -1861,6 +1921,17 @@ def configs_for(tier: str) -> Dict[str, Tuple[int, List[Dict[str, Any]]]]:
         for a in (0, 2):
             for e in [0, 1, 2, 3] + [STEER_ENVS[4], STEER_ENVS[5], STEER_ENVS[0]]:
                 g.append({"entry": "test_server", "servers": [[a, e, 0, 0]], "request": [0], "verbose": verbose})
+    # a host that lacks default-inherited names: they are absent from the child too (nothing is made up for them)
+    for entry in ENTRIES:
+        extra = {"cmdkind": "plain"} if entry == "run_command" else ({"verbose": False} if entry == "test_server" else {})
+        for lacks in [[n] for n in DEFAULT_NAMES if n != "PATH"] + [["TERM", "SHELL", "LOGNAME"], ["HOME", "USER", "LOGNAME", "SHELL", "TERM"]]:
+            for e in (0, 1, 2):
+                g.append({"entry": entry, "servers": [[2, e, 0, 0]], "request": [0], "host_lacks": lacks, **extra})
+    # ... and stays absent for whatever is launched next in the same process
+    for lacks in (["TERM"], ["HOME", "TERM"]):
+        for e2 in ENTRIES:
+            extra2 = {"cmdkind": "plain"} if e2 == "run_command" else ({"verbose": False} if e2 == "test_server" else {})
+            g.append({"after_run_command": True, "entry": e2, "servers": [[0, 0, 0, 0]], "request": [0], "host_lacks": lacks, **extra2})
     parts["env-steering-variables"] = (1, g)
 
     # (7) two calls on the same path in one process, the file changing in between: every ordered pair of file states
@@ -2099,6 +2170,9 @@ def run(tier: str, only=None) -> core.Result:
         "odd program paths are absolute; the expected argv for the '#!' wrapper is [interpreter, configured path, *args]",
         "reconnects are sequential (the previous connection is closed before the next is opened); concurrent connections "
         "from one parameters object are not generated",
+        "host environments that lack default-inherited names (each of HOME, LOGNAME, SHELL, TERM, USER alone, and two "
+        "combinations; PATH is always present): the child of a server without configured env must lack them too; also for a "
+        "launch that follows a run_command call in the same process without the harness restoring the environment in between",
         "valid JSON that is not an object, entries without 'command', directories given as config path are outside the three "
         "malformed classes of the statement and not generated",
     ]
